@@ -7,6 +7,7 @@ CONSTANTS
   UnlistByIdentity = TRUE
   AttachEarly = TRUE
   KeepHist = FALSE
+  StartKinds <- StartsBoth
   OpKinds <- CoreOps
 INVARIANTS TypeOK NameUnique OwnerFindable LookupOnlyOpen ListedOnlyLive AfterRuntimeClose AtMostOnce ExactlyOnce
 VIEW DesignView
